@@ -359,7 +359,12 @@ Draw(e, sync) ==
         allnew == Len(t1.g) > 0 /\ \A i \in 1..Len(t1.g) : t1.g[i].st > t0.stamp
         trusted == scr.trusted \/ sync \/ resized \/ allnew
         visible == s0.curx >= 0 /\ s0.cury >= 0 /\ s0.curx < b1.w /\ s0.cury < b1.h
-        s1 == [NotePaint(s0, t0, t1, b1) EXCEPT !.trusted = trusted,
+        \* named deviation (cell.go SetDirty): a painted cell that holds rune 0 holds a blank from then on; what the
+        \* next frame is compared with (pvis) is the buffer after that normalisation
+        b2 == [b1 EXCEPT !.cells = [i \in DOMAIN b1.cells |->
+                  IF b1.cells[i].cp = 0 /\ i <= Len(t1.g) /\ t1.g[i].st > t0.stamp /\ t1.g[i].w # 0
+                  THEN [b1.cells[i] EXCEPT !.cp = 32, !.wc = 1] ELSE b1.cells[i]]]
+        s1 == [NotePaint(s0, t0, t1, b2) EXCEPT !.trusted = trusted,
                    !.eshape = IF visible /\ HasCursorStyles(cfg) THEN s0.cstyle ELSE @,
                    !.eccol = IF ~visible THEN @ ELSE IF s0.ccol[1] = 3 THEN DefCol
                              ELSE IF s0.ccol[1] \in {1, 2} THEN <<2, s0.crgb>> ELSE @]
@@ -370,10 +375,6 @@ Draw(e, sync) ==
                 \cup (IF ~visible \/ ~trusted THEN {}
                       ELSE (IF s1.eshape = -1 \/ t1.shape = s1.eshape THEN {} ELSE {Dev("EXTRA.cursor_style", "shape", 0, 0, <<t1.shape, s1.eshape>>)})
                            \cup (IF t1.ccol = s1.eccol THEN {} ELSE {Dev("EXTRA.cursor_style", "colour", 0, 0, <<t1.ccol, s1.eccol>>)}))
-        \* named deviation (cell.go SetDirty): a painted cell that holds rune 0 holds a blank from then on
-        b2 == [b1 EXCEPT !.cells = [i \in DOMAIN b1.cells |->
-                  IF b1.cells[i].cp = 0 /\ i <= Len(t1.g) /\ t1.g[i].st > t0.stamp /\ t1.g[i].w # 0
-                  THEN [b1.cells[i] EXCEPT !.cp = 32, !.wc = 1] ELSE b1.cells[i]]]
     IN <<t1, b2, s1, devs>>
 
 TtyStep(s, e) ==
